@@ -8,6 +8,7 @@ EXACT_INTERVALS = [
     {"weeks": 1}, {"weeks": 4}, {"days": 30}, {"days": 365},
     {"days": 1, "hours": 12}, {"hours": 23, "minutes": 59, "seconds": 59},
     {"days": 400, "seconds": 1}, {"hours": 1, "minutes": -30},
+    {"days": 1500}, {"days": 3000, "hours": 1}, {"weeks": 300},
 ]
 # exact intervals with binary fractions (exact in floats): the sub-second
 # part may come from any unit
